@@ -43,7 +43,10 @@ CONSTANTS
     Threads,      \* thread identifiers
     ArchFiles,    \* archive files on disk
     Names,        \* file names inside archives
-    Dev           \* enabled deviations (subset of CodeDev)
+    Dev,          \* enabled deviations (subset of CodeDev)
+    NextId(_)     \* the id the next allocation of thread t obtains: the counter in the model (MC: vnext),
+                  \* the handle actually returned in trace validation (any fresh non-zero id is accepted:
+                  \* the allocation scheme is not part of the property)
 
 CodeDev == {"CloseSplit", "NoFindPurge", "FindLate", "FindNextNested", "VerifyRelock", "ProbeForever",
             "HasFileStale"}
@@ -51,7 +54,9 @@ CodeDev == {"CloseSplit", "NoFindPurge", "FindLate", "FindNextNested", "VerifyRe
 VARIABLES
     vdisk,     \* [ArchFiles -> [Names -> content]]   what is on disk
     vcap,      \* [ArchFiles -> Nat]                   hash-table capacity (names) of the file on disk
-    varch,     \* id :> [file, mut, sess, snap, cap]   ARCHIVES
+    vlist,     \* [ArchFiles -> Seq(name)]             listing order of the file on disk
+    varch,     \* id :> [file, mut, sess, snap, lst, cap]  ARCHIVES  (lst: listing of the underlying
+               \*                                      read-only Archive, "(listfile)" included)
     vfiles,    \* id :> [arch, name, data, pos]        FILES
     vfinds,    \* id :> [arch, list, idx]              FIND_HANDLES
     vnext,     \* NEXT_HANDLE
@@ -62,8 +67,8 @@ VARIABLES
     vlast,     \* [Threads -> error class]             thread-local LAST_ERROR
     vclosed    \* archive ids whose SFileCloseArchive has returned TRUE (ghost)
 
-tables == <<vdisk, vcap, varch, vfiles, vfinds, vnext>>
-vars   == <<vdisk, vcap, varch, vfiles, vfinds, vnext, vlock, vpc, vfr, vret, vlast, vclosed>>
+tables == <<vdisk, vcap, vlist, varch, vfiles, vfinds, vnext>>
+vars   == <<vdisk, vcap, vlist, varch, vfiles, vfinds, vnext, vlock, vpc, vfr, vret, vlast, vclosed>>
 
 Locks  == {"ARCH", "FILES", "FINDS", "NEXT"}
 Free   == "free"
@@ -72,6 +77,7 @@ NoMap  == [x \in Names |-> None]
 
 \* ---------------------------------------------------------------- small helpers
 Min(a, b) == IF a <= b THEN a ELSE b
+Max(a, b) == IF a >= b THEN a ELSE b
 Present(m) == {x \in Names : m[x] # None}
 Drop(f, ks) == [x \in DOMAIN f \ ks |-> f[x]]
 \* names of a map in a fixed (arbitrary but deterministic) order: the listfile order is not part of
@@ -98,9 +104,15 @@ TypeOK ==
     /\ DOMAIN vfiles \subseteq 1..(vnext - 1)
     /\ DOMAIN vfinds \subseteq 1..(vnext - 1)
 
-InitWith(disk, cap) ==
+LF == "(listfile)"
+Special(x) == x = LF
+UserNames(l) == SelectSeq(l, LAMBDA x : ~Special(x))
+\* default listing of a name->content map: the present names in a fixed order, then the listfile
+ListOf(m) == SetSeq(Present(m)) \o <<LF>>
+InitWith(disk, cap, lst) ==
     /\ vdisk = disk
     /\ vcap = cap
+    /\ vlist = lst
     /\ varch = <<>> /\ vfiles = <<>> /\ vfinds = <<>>
     /\ vnext = 1
     /\ vlock = [l \in Locks |-> Free]
@@ -109,7 +121,7 @@ InitWith(disk, cap) ==
     /\ vret = [t \in Threads |-> NoRet]
     /\ vlast = [t \in Threads |-> "ok"]
     /\ vclosed = {}
-Init == InitWith([f \in ArchFiles |-> NoMap], [f \in ArchFiles |-> 16])
+Init == InitWith([f \in ArchFiles |-> NoMap], [f \in ArchFiles |-> 16], [f \in ArchFiles |-> <<LF>>])
 
 \* ---------------------------------------------------------------- call / return plumbing
 \* A call is started by Invoke (the MC and Trace modules choose the arguments).
@@ -134,32 +146,35 @@ CanLock(l)    == vlock[l] = Free
 Acquire(t, l) == vlock[l] = Free /\ vlock' = [vlock EXCEPT ![l] = t]
 Release(t, l) == vlock[l] = t /\ vlock' = [vlock EXCEPT ![l] = Free]
 Arg(t)        == vfr[t]
+FreshId(id)   == id > 0 /\ id \notin (DOMAIN varch \cup DOMAIN vfiles \cup DOMAIN vfinds)
 SetTmp(t, v)  == vfr' = [vfr EXCEPT ![t].tmp = v]
 SetLst(t, v)  == vfr' = [vfr EXCEPT ![t].lst = v]
 
 \* ============================================================================================
 \* SFileOpenArchive / SFileCreateArchive2                       lib.rs:169-223, 2186-2305
-\*   n1 = 0: open read-only   n1 = 1: create (truncate) + open writable (only CreateArchive2 yields
-\*   a MutableArchive)        name = archive file ("" / unknown file = does not exist)
+\*   n1 = 0: SFileOpenArchive (read-only)   n1 = 1: SFileCreateArchive2 (truncate, open writable: the
+\*   only way to a MutableArchive)   n1 = 2: SFileCreateArchive(CREATE_ALWAYS) (truncate, open
+\*   read-only)   name = archive file (unknown file = does not exist)   n2 = capacity when creating
 \* ============================================================================================
 OA_Open(t) ==                               \* no lock: Archive::open / ArchiveBuilder::build
     /\ At(t, "OpenArchive0")
     /\ IF Arg(t).name \notin ArchFiles
        THEN /\ Finish(t, 0, <<>>, "not_found") /\ UNCHANGED <<tables, vlock, vclosed>>
-       ELSE /\ vdisk' = IF Arg(t).n1 = 1 THEN [vdisk EXCEPT ![Arg(t).name] = NoMap] ELSE vdisk
-            /\ vcap'  = IF Arg(t).n1 = 1 THEN [vcap EXCEPT ![Arg(t).name] = Arg(t).n2] ELSE vcap
+       ELSE /\ vdisk' = IF Arg(t).n1 # 0 THEN [vdisk EXCEPT ![Arg(t).name] = NoMap] ELSE vdisk
+            /\ vcap'  = IF Arg(t).n1 # 0 THEN [vcap EXCEPT ![Arg(t).name] = Arg(t).n2] ELSE vcap
+            /\ vlist' = IF Arg(t).n1 # 0 THEN [vlist EXCEPT ![Arg(t).name] = <<LF>>] ELSE vlist
             /\ Goto(t, "OpenArchive1") /\ UNCHANGED <<varch, vfiles, vfinds, vnext, vlock, vfr, vclosed>>
 OA_Id(t) ==                                 \* [NEXT]
     /\ At(t, "OpenArchive1") /\ CanLock("NEXT")
-    /\ SetTmp(t, vnext) /\ vnext' = vnext + 1
-    /\ Goto(t, "OpenArchive2") /\ UNCHANGED <<vdisk, vcap, varch, vfiles, vfinds, vlock, vclosed>>
+    /\ FreshId(NextId(t)) /\ SetTmp(t, NextId(t)) /\ vnext' = Max(vnext, NextId(t)) + 1
+    /\ Goto(t, "OpenArchive2") /\ UNCHANGED <<vdisk, vcap, vlist, varch, vfiles, vfinds, vlock, vclosed>>
 OA_Insert(t) ==                             \* [ARCH]
     /\ At(t, "OpenArchive2") /\ CanLock("ARCH")
     /\ LET f == Arg(t).name IN
        varch' = (Arg(t).tmp :> [file |-> f, mut |-> (Arg(t).n1 = 1), sess |-> vdisk[f], snap |-> vdisk[f],
-                                cap |-> vcap[f]]) @@ varch
+                                lst |-> vlist[f], cap |-> vcap[f]]) @@ varch
     /\ Finish(t, Arg(t).tmp, <<>>, "ok")
-    /\ UNCHANGED <<vdisk, vcap, vfiles, vfinds, vnext, vlock, vclosed>>
+    /\ UNCHANGED <<vdisk, vcap, vlist, vfiles, vfinds, vnext, vlock, vclosed>>
 
 \* ============================================================================================
 \* SFileCloseArchive                                              lib.rs:329-349
@@ -176,7 +191,7 @@ CA_PurgeFiles_Split(t) ==                   \* [FILES]
     /\ "CloseSplit" \in Dev
     /\ At(t, "CloseArchive0") /\ Arg(t).h # 0 /\ CanLock("FILES")
     /\ vfiles' = Purge(vfiles, Arg(t).h)
-    /\ Goto(t, "CloseArchive1") /\ UNCHANGED <<vdisk, vcap, varch, vfinds, vnext, vlock, vfr, vclosed>>
+    /\ Goto(t, "CloseArchive1") /\ UNCHANGED <<vdisk, vcap, vlist, varch, vfinds, vnext, vlock, vfr, vclosed>>
 CA_Remove_Split(t) ==                       \* [ARCH]
     /\ At(t, "CloseArchive1") /\ CanLock("ARCH")
     /\ LET a == Arg(t).h IN
@@ -186,7 +201,7 @@ CA_Remove_Split(t) ==                       \* [ARCH]
             /\ vclosed' = vclosed \cup {a}
             /\ Finish(t, 1, <<>>, "ok")
        ELSE /\ Finish(t, 0, <<>>, "invalid_handle") /\ UNCHANGED <<vdisk, varch, vfinds, vclosed>>
-    /\ UNCHANGED <<vcap, vfiles, vnext, vlock>>
+    /\ UNCHANGED <<vcap, vlist, vfiles, vnext, vlock>>
 \* --- intended: remove the archive first and purge both tables before ARCHIVES is released
 CA_Remove(t) ==                             \* acquire ARCH; remove
     /\ "CloseSplit" \notin Dev
@@ -197,17 +212,17 @@ CA_Remove(t) ==                             \* acquire ARCH; remove
             /\ vlock' = [vlock EXCEPT !["ARCH"] = t]
             /\ Goto(t, "CloseArchive2") /\ UNCHANGED <<vfr>>
        ELSE /\ Finish(t, 0, <<>>, "invalid_handle") /\ UNCHANGED <<vdisk, varch, vlock>>
-    /\ UNCHANGED <<vcap, vfiles, vfinds, vnext, vclosed>>
+    /\ UNCHANGED <<vcap, vlist, vfiles, vfinds, vnext, vclosed>>
 CA_PurgeFiles(t) ==                         \* ARCH held; [FILES]
     /\ At(t, "CloseArchive2") /\ CanLock("FILES")
     /\ vfiles' = Purge(vfiles, Arg(t).h)
-    /\ Goto(t, "CloseArchive3") /\ UNCHANGED <<vdisk, vcap, varch, vfinds, vnext, vlock, vfr, vclosed>>
+    /\ Goto(t, "CloseArchive3") /\ UNCHANGED <<vdisk, vcap, vlist, varch, vfinds, vnext, vlock, vfr, vclosed>>
 CA_PurgeFinds(t) ==                         \* ARCH held; [FINDS]; release ARCH
     /\ At(t, "CloseArchive3") /\ CanLock("FINDS")
     /\ vfinds' = IF "NoFindPurge" \in Dev THEN vfinds ELSE Purge(vfinds, Arg(t).h)
     /\ Release(t, "ARCH")
     /\ vclosed' = vclosed \cup {Arg(t).h}
-    /\ Finish(t, 1, <<>>, "ok") /\ UNCHANGED <<vdisk, vcap, varch, vfiles, vnext>>
+    /\ Finish(t, 1, <<>>, "ok") /\ UNCHANGED <<vdisk, vcap, vlist, varch, vfiles, vnext>>
 
 \* ============================================================================================
 \* SFileOpenFileEx                                                lib.rs:358-452
@@ -232,14 +247,14 @@ OF_Lookup(t) ==                             \* acquire ARCH; find_file + read_fi
     /\ UNCHANGED <<tables, vclosed>>
 OF_Id(t) ==                                 \* ARCH held; [NEXT]
     /\ At(t, "OpenFileEx1") /\ CanLock("NEXT")
-    /\ SetTmp(t, vnext) /\ vnext' = vnext + 1
-    /\ Goto(t, "OpenFileEx2") /\ UNCHANGED <<vdisk, vcap, varch, vfiles, vfinds, vlock, vclosed>>
+    /\ FreshId(NextId(t)) /\ SetTmp(t, NextId(t)) /\ vnext' = Max(vnext, NextId(t)) + 1
+    /\ Goto(t, "OpenFileEx2") /\ UNCHANGED <<vdisk, vcap, vlist, varch, vfiles, vfinds, vlock, vclosed>>
 OF_Insert(t) ==                             \* ARCH held; [FILES]; release ARCH on return
     /\ At(t, "OpenFileEx2") /\ CanLock("FILES")
     /\ vfiles' = (Arg(t).tmp :> [arch |-> Arg(t).h, name |-> Arg(t).name, data |-> Arg(t).dat, pos |-> 0]) @@ vfiles
     /\ Release(t, "ARCH")
     /\ Finish(t, Arg(t).tmp, <<>>, "ok")
-    /\ UNCHANGED <<vdisk, vcap, varch, vfinds, vnext, vclosed>>
+    /\ UNCHANGED <<vdisk, vcap, vlist, varch, vfinds, vnext, vclosed>>
 
 \* ============================================================================================
 \* functions that are one critical section on FILES            lib.rs:456-612, 970-999
@@ -251,7 +266,7 @@ CloseFile(t) ==
     /\ FileCall(t, "CloseFile")
     /\ IF BadFile(t) THEN Finish(t, 0, <<>>, "invalid_handle") /\ UNCHANGED vfiles
        ELSE vfiles' = Drop(vfiles, {Arg(t).h}) /\ Finish(t, 1, <<>>, "ok")
-    /\ UNCHANGED <<vdisk, vcap, varch, vfinds, vnext, vlock, vclosed>>
+    /\ UNCHANGED <<vdisk, vcap, vlist, varch, vfinds, vnext, vlock, vclosed>>
 
 \* n1 = to_read (u32; the trace clamps it to the buffer it really supplies)
 ReadFile(t) ==
@@ -261,7 +276,7 @@ ReadFile(t) ==
                 n == Min(Arg(t).n1, Len(f.data) - f.pos) IN
             /\ vfiles' = [vfiles EXCEPT ![Arg(t).h].pos = f.pos + n]
             /\ Finish(t, 1, SubSeq(f.data, f.pos + 1, f.pos + n), "ok")
-    /\ UNCHANGED <<vdisk, vcap, varch, vfinds, vnext, vlock, vclosed>>
+    /\ UNCHANGED <<vdisk, vcap, vlist, varch, vfinds, vnext, vlock, vclosed>>
 
 GetFileSize(t) ==
     /\ FileCall(t, "GetFileSize")
@@ -280,7 +295,7 @@ SetFilePointer(t) ==
             \E np \in (IF tg = -1 THEN 0..Len(f.data) ELSE {tg}) :
                /\ vfiles' = [vfiles EXCEPT ![Arg(t).h].pos = np]
                /\ Finish(t, np, <<>>, "ok")
-    /\ UNCHANGED <<vdisk, vcap, varch, vfinds, vnext, vlock, vclosed>>
+    /\ UNCHANGED <<vdisk, vcap, vlist, varch, vfinds, vnext, vlock, vclosed>>
 
 GetFileName(t) ==
     /\ FileCall(t, "GetFileName")
@@ -290,24 +305,24 @@ GetFileName(t) ==
 
 \* ============================================================================================
 \* SFileGetFileInfo: FILES first, then ARCHIVES (two consecutive sections)   lib.rs:652-685
-\*   n1 = info class: 1 = file size / archive info, 2 = file position;  n2 = buffer size class
-\*   (0 = too small, 1 = large enough)
+\*   n1 = info class (1 archive size, 2 hash table size: archives; 7 file size, 10 position: files)
+\*   n2 = buffer size in bytes
 \* ============================================================================================
 GI_File(t) ==
     /\ At(t, "GetFileInfo0") /\ (Arg(t).h = 0 \/ CanLock("FILES"))
     /\ IF Arg(t).h = 0 THEN Finish(t, 0, <<>>, "invalid_handle")
        ELSE IF Arg(t).h \in DOMAIN vfiles
        THEN LET f == vfiles[Arg(t).h] IN
-            /\ IF Arg(t).n1 \notin {1, 2} THEN Finish(t, 0, <<>>, "not_supported")
-               ELSE IF Arg(t).n2 = 0 THEN Finish(t, 0, <<>>, "insufficient_buffer")
-               ELSE Finish(t, 1, <<IF Arg(t).n1 = 1 THEN Len(f.data) ELSE f.pos>>, "ok")
+            /\ IF Arg(t).n1 \notin {7, 10} THEN Finish(t, 0, <<>>, "not_supported")
+               ELSE IF Arg(t).n2 < 8 THEN Finish(t, 0, <<>>, "insufficient_buffer")
+               ELSE Finish(t, 1, <<IF Arg(t).n1 = 7 THEN Len(f.data) ELSE f.pos>>, "ok")
        ELSE Goto(t, "GetFileInfo1") /\ UNCHANGED vfr
     /\ UNCHANGED <<tables, vlock, vclosed>>
 GI_Archive(t) ==
     /\ At(t, "GetFileInfo1") /\ CanLock("ARCH")
     /\ IF Arg(t).h \notin DOMAIN varch THEN Finish(t, 0, <<>>, "invalid_handle")
-       ELSE IF Arg(t).n1 # 1 THEN Finish(t, 0, <<>>, "not_supported")
-       ELSE IF Arg(t).n2 = 0 THEN Finish(t, 0, <<>>, "insufficient_buffer")
+       ELSE IF Arg(t).n1 \notin {1, 2} THEN Finish(t, 0, <<>>, "not_supported")
+       ELSE IF Arg(t).n2 < (IF Arg(t).n1 = 1 THEN 8 ELSE 4) THEN Finish(t, 0, <<>>, "insufficient_buffer")
        ELSE Finish(t, 1, <<>>, "ok")
     /\ UNCHANGED <<tables, vlock, vclosed>>
 
@@ -338,18 +353,20 @@ VerifyFile(t) ==                            \* lib.rs:1098-1253
 
 \* names as the (listfile) of the underlying read-only Archive gives them (MutableArchive::list
 \* delegates to it, so the Rust API and the C API agree on the stale list)
-Listing(r) == SetSeq(Present(r.snap))
+Listing(r) == r.lst
 
 EnumFiles(t) ==                             \* lib.rs:862-931  (callback runs under ARCHIVES)
     /\ ArchCall(t, "EnumFiles")
     /\ IF BadArch(t) THEN Finish(t, 0, <<>>, "invalid_handle")
-       ELSE Finish(t, 1, Listing(varch[Arg(t).h]), "ok")
+       ELSE Finish(t, 1, UserNames(Listing(varch[Arg(t).h])), "ok")
     /\ UNCHANGED <<tables, vlock, vclosed>>
 
+\* n2 = buffer size class: 0 = zero bytes, 1 = ample, 2 = path length (NUL does not fit), 3 = exact
 GetArchiveName(t) ==                        \* lib.rs:811-852
     /\ ArchCall(t, "GetArchiveName")
-    /\ IF BadArch(t) THEN Finish(t, 0, <<>>, "invalid_handle")
-       ELSE IF Arg(t).n2 = 0 THEN Finish(t, 0, <<>>, "insufficient_buffer")
+    /\ IF Arg(t).n2 = 0 THEN Finish(t, 0, <<>>, "invalid_param")
+       ELSE IF BadArch(t) THEN Finish(t, 0, <<>>, "invalid_handle")
+       ELSE IF Arg(t).n2 = 2 THEN Finish(t, 0, <<>>, "insufficient_buffer")    \* one byte short
        ELSE Finish(t, 1, <<varch[Arg(t).h].file>>, "ok")
     /\ UNCHANGED <<tables, vlock, vclosed>>
 
@@ -380,7 +397,7 @@ AddFile(t) ==                               \* lib.rs:1377-1485; n1 = 1: MPQ_FIL
                       ELSE Finish(t, 0, <<>>, "full") /\ UNCHANGED <<varch, vlock>>
             ELSE /\ varch' = [varch EXCEPT ![Arg(t).h].sess[Arg(t).name] = Arg(t).dat]
                  /\ Finish(t, 1, <<>>, "ok") /\ UNCHANGED vlock
-    /\ UNCHANGED <<vdisk, vcap, vfiles, vfinds, vnext, vclosed>>
+    /\ UNCHANGED <<vdisk, vcap, vlist, vfiles, vfinds, vnext, vclosed>>
 
 RemoveFile(t) ==                            \* lib.rs:1510-1572
     /\ ArchCall(t, "RemoveFile")
@@ -392,7 +409,7 @@ RemoveFile(t) ==                            \* lib.rs:1510-1572
                  THEN Finish(t, 0, <<>>, "not_found") /\ UNCHANGED varch
             ELSE /\ varch' = [varch EXCEPT ![Arg(t).h].sess[Arg(t).name] = None]
                  /\ Finish(t, 1, <<>>, "ok")
-    /\ UNCHANGED <<vdisk, vcap, vfiles, vfinds, vnext, vlock, vclosed>>
+    /\ UNCHANGED <<vdisk, vcap, vlist, vfiles, vfinds, vnext, vlock, vclosed>>
 
 \* name -> dat[1] (the new name is carried in lst of the invocation: vfr.dat = <<newname>>)
 RenameFile(t) ==                            \* lib.rs:1581-1652
@@ -409,7 +426,7 @@ RenameFile(t) ==                            \* lib.rs:1581-1652
             ELSE /\ varch' = [varch EXCEPT ![Arg(t).h].sess = [@ EXCEPT ![nn] = r.sess[Arg(t).name],
                                                                           ![Arg(t).name] = None]]
                  /\ Finish(t, 1, <<>>, "ok")
-    /\ UNCHANGED <<vdisk, vcap, vfiles, vfinds, vnext, vlock, vclosed>>
+    /\ UNCHANGED <<vdisk, vcap, vlist, vfiles, vfinds, vnext, vlock, vclosed>>
 
 \* n1 = 0: SFileFlushArchive, n1 = 1: SFileCompactArchive (re-opens: the snapshot is refreshed)
 FlushArchive(t) ==                          \* lib.rs:1660-1763
@@ -420,9 +437,10 @@ FlushArchive(t) ==                          \* lib.rs:1660-1763
             IF ~r.mut THEN /\ (IF Arg(t).n1 = 0 THEN Finish(t, 1, <<>>, "ok") ELSE Finish(t, 0, <<>>, "access_denied"))
                            /\ UNCHANGED <<vdisk, varch>>
             ELSE /\ vdisk' = [vdisk EXCEPT ![r.file] = r.sess]
-                 /\ varch' = IF Arg(t).n1 = 1 THEN [varch EXCEPT ![Arg(t).h].snap = r.sess] ELSE varch
+                 /\ varch' = IF Arg(t).n1 = 1 THEN [varch EXCEPT ![Arg(t).h].snap = r.sess,
+                                                                    ![Arg(t).h].lst = ListOf(r.sess)] ELSE varch
                  /\ Finish(t, 1, <<>>, "ok")
-    /\ UNCHANGED <<vcap, vfiles, vfinds, vnext, vlock, vclosed>>
+    /\ UNCHANGED <<vcap, vlist, vfiles, vfinds, vnext, vlock, vclosed>>
 
 \* ============================================================================================
 \* SFileVerifyArchive                                             lib.rs:1264-1368
@@ -434,8 +452,8 @@ VA_Null(t) ==
 VA_Begin(t) ==                              \* acquire ARCH; signature; list
     /\ At(t, "VerifyArchive0") /\ Arg(t).h # 0 /\ CanLock("ARCH")
     /\ IF Arg(t).h \notin DOMAIN varch THEN Finish(t, 0, <<>>, "invalid_handle") /\ UNCHANGED vlock
-       ELSE IF Arg(t).n1 = 0 \/ Listing(varch[Arg(t).h]) = <<>> THEN Finish(t, 1, <<>>, "ok") /\ UNCHANGED vlock
-       ELSE /\ SetLst(t, Listing(varch[Arg(t).h]))
+       ELSE IF Arg(t).n1 = 0 \/ UserNames(Listing(varch[Arg(t).h])) = <<>> THEN Finish(t, 1, <<>>, "ok") /\ UNCHANGED vlock
+       ELSE /\ SetLst(t, UserNames(Listing(varch[Arg(t).h])))
             /\ IF "VerifyRelock" \in Dev
                THEN vlock' = [vlock EXCEPT !["ARCH"] = t]          \* the guard stays alive during the loop
                ELSE UNCHANGED vlock                                  \* intended: names collected, guard dropped
@@ -469,14 +487,14 @@ FF_Fill_Late(t) ==                          \* as written: fill_find_data re-loc
     /\ Goto(t, "FindFirst2") /\ UNCHANGED <<tables, vlock, vfr, vclosed>>
 FF_Id(t) ==                                 \* [NEXT]
     /\ At(t, "FindFirst2") /\ CanLock("NEXT")
-    /\ SetTmp(t, vnext) /\ vnext' = vnext + 1
-    /\ Goto(t, "FindFirst3") /\ UNCHANGED <<vdisk, vcap, varch, vfiles, vfinds, vlock, vclosed>>
+    /\ FreshId(NextId(t)) /\ SetTmp(t, NextId(t)) /\ vnext' = Max(vnext, NextId(t)) + 1
+    /\ Goto(t, "FindFirst3") /\ UNCHANGED <<vdisk, vcap, vlist, varch, vfiles, vfinds, vlock, vclosed>>
 FF_Insert(t) ==                             \* [FINDS] insert (intended: then release ARCH)
     /\ At(t, "FindFirst3") /\ CanLock("FINDS")
     /\ vfinds' = (Arg(t).tmp :> [arch |-> Arg(t).h, list |-> Arg(t).lst, idx |-> 1]) @@ vfinds
     /\ IF "FindLate" \in Dev THEN UNCHANGED vlock ELSE Release(t, "ARCH")
     /\ Finish(t, Arg(t).tmp, <<Arg(t).lst[1]>>, "ok")
-    /\ UNCHANGED <<vdisk, vcap, varch, vfiles, vnext, vclosed>>
+    /\ UNCHANGED <<vdisk, vcap, vlist, varch, vfiles, vnext, vclosed>>
 
 FN_Null(t) ==
     /\ At(t, "FindNext0") /\ Arg(t).h = 0
@@ -490,7 +508,7 @@ FN_Advance(t) ==                            \* FINDS: advance the cursor
                  /\ SetLst(t, <<s.list[s.idx + 1]>>)
                  /\ IF "FindNextNested" \in Dev THEN vlock' = [vlock EXCEPT !["FINDS"] = t] ELSE UNCHANGED vlock
                  /\ Goto(t, "FindNext1")
-    /\ UNCHANGED <<vdisk, vcap, varch, vfiles, vnext, vclosed>>
+    /\ UNCHANGED <<vdisk, vcap, vlist, varch, vfiles, vnext, vclosed>>
 FN_Fill(t) ==                               \* fill_find_data: [ARCH] (as written: FINDS still held)
     /\ At(t, "FindNext1") /\ CanLock("ARCH")
     /\ IF "FindNextNested" \in Dev THEN Release(t, "FINDS") ELSE UNCHANGED vlock
@@ -502,7 +520,7 @@ FindClose(t) ==
     /\ IF Arg(t).h = 0 \/ Arg(t).h \notin DOMAIN vfinds
        THEN Finish(t, 0, <<>>, "invalid_handle") /\ UNCHANGED vfinds
        ELSE vfinds' = Drop(vfinds, {Arg(t).h}) /\ Finish(t, 1, <<>>, "ok")
-    /\ UNCHANGED <<vdisk, vcap, varch, vfiles, vnext, vlock, vclosed>>
+    /\ UNCHANGED <<vdisk, vcap, vlist, varch, vfiles, vnext, vlock, vclosed>>
 
 \* ---------------------------------------------------------------- all steps of thread t but Invoke
 Step(t) ==
